@@ -588,6 +588,22 @@ fn run_iter(src: &str) -> String {
         Err(e) => format!("ERR {}", error_text(&e)),
         Ok(mut n) => {
             let j = |v: Vec<String>| v.join(",");
+            // on a copy of the tree as built (no mutable access before this one): rewrite the read variables through their
+            // mutable iterator, then ask the immutable iterators: they list the names as they are at this moment
+            let mid = {
+                let mut fresh = n.clone();
+                for s in fresh.iter_read_variable_identifiers_mut() {
+                    s.insert(0, 'r');
+                }
+                format!(
+                    "{};{};{};{};{}",
+                    j(fresh.iter_identifiers().map(hex).collect()),
+                    j(fresh.iter_variable_identifiers().map(hex).collect()),
+                    j(fresh.iter_read_variable_identifiers().map(hex).collect()),
+                    j(fresh.iter_write_variable_identifiers().map(hex).collect()),
+                    j(fresh.iter_function_identifiers().map(hex).collect())
+                )
+            };
             let a = j(n.iter_identifiers().map(hex).collect());
             let b = j(n.iter_variable_identifiers().map(hex).collect());
             let c = j(n.iter_read_variable_identifiers().map(hex).collect());
@@ -665,15 +681,6 @@ fn run_iter(src: &str) -> String {
             for s in n.iter_read_variable_identifiers_mut() {
                 s.insert(0, 'r');
             }
-            // between two rewrites: the immutable iterators list the names as they are at this moment
-            let mid = format!(
-                "{};{};{};{};{}",
-                j(n.iter_identifiers().map(hex).collect()),
-                j(n.iter_variable_identifiers().map(hex).collect()),
-                j(n.iter_read_variable_identifiers().map(hex).collect()),
-                j(n.iter_write_variable_identifiers().map(hex).collect()),
-                j(n.iter_function_identifiers().map(hex).collect())
-            );
             for s in n.iter_write_variable_identifiers_mut() {
                 s.insert(0, 'w');
             }
